@@ -1492,9 +1492,7 @@ impl<'a, 'b> InternalDelphiLogicalLineParser<'a, 'b> {
         }
 
         let paren_level = self.paren_level;
-        while !(matches!(self.get_token_type::<-1>(), Some(TT::Op(OK::RParen)))
-            && paren_level >= self.paren_level)
-        {
+        loop {
             match self.get_current_token_type() {
                 Some(TT::Op(OK::Semicolon | OK::LParen)) => fix_next_eq(self),
                 None => break,
@@ -1530,6 +1528,13 @@ impl<'a, 'b> InternalDelphiLogicalLineParser<'a, 'b> {
                 _ => {}
             };
             self.next_token();
+            // The exit condition is tested after consuming a token so that a parameter
+            // list directly after a `)` (e.g., `procedure Foo()()`) still makes progress.
+            if matches!(self.get_token_type::<-1>(), Some(TT::Op(OK::RParen)))
+                && paren_level >= self.paren_level
+            {
+                break;
+            }
         }
     }
     fn parse_property_declaration(&mut self) {
